@@ -218,7 +218,16 @@ def step(toks, ann):
             return canon(e)
     if op == 'henc':
         try:
-            return 'ok ' + hx(huff_coder().encode(unhex(toks[1])))
+            data = unhex(toks[1])
+            if ann.get('buf') == 'shared':          # the application fills one bytearray again and again
+                data = shared_buf(data)
+            elif ann.get('buf') == 'bytearray':
+                data = bytearray(data)
+            elif ann.get('buf') == 'memoryview':
+                data = memoryview(data)
+            elif ann.get('buf') == 'mv-shared':
+                data = memoryview(shared_buf(data))
+            return 'ok ' + hx(huff_coder().encode(data))
         except Exception as e:
             return canon(e)
     if op == 'hdec':
